@@ -18,7 +18,7 @@ func init() {
 	register("C11", func(tier string) CheckSpec {
 		depth, budget := 5, 280*time.Second
 		if tier == "thorough" {
-			depth, budget = 7, 40*time.Minute
+			depth, budget = 7, 20*time.Minute
 		}
 		return CheckSpec{Level: "model_checking", Rule: searchRule, Assumptions: append([]string{
 			"IBC core's proof verification and ordered-channel bookkeeping are replaced by the harness Net shim (a timeout closes the ordered channel before the callback, as ibc-go v10 does)",
